@@ -31,6 +31,7 @@ THEOREMS = [
     "c19_managers_independent",
     "c19_no_silent_removal",
     "c19_envelope_class_irrelevant",
+    "c19_cleanup_idempotent_monotone",
 ]
 RULE = (
     "operation histories over {tick, create, get, update activity, delete, cleanup(max_age), list+mutate, clear, "
